@@ -26,7 +26,9 @@ def doc_corpus():
     SINK = ("class Dog { public constructor() -> Dog = default; }\nclass Sink<T> { public constructor() -> Sink<T> = default; public virtual function put(T x) -> void; }\n"
             "class DogSink extends Sink<Dog> { public constructor() -> DogSink { super(); return this; } public override function put(Dog x) -> void { echo(\"dog\"); } }\n"
             "function main() -> void { Sink<Dog> s = new DogSink(); s.put(new Dog()); }")
+    SS = 'class A { public int size = 3; public constructor() -> A = default; public virtual function size() -> int { return 10; } }\nclass B extends A { public constructor() -> B { super(); return this; }\n  public override function size() -> int { return 20; }\n  public function show() -> void { echo(super.size); echo(super.size()); echo(super.size + 1); echo(this.size()); } }\nfunction main() -> void { B b = new B(); b.show(); }\n'
     return [
+        ("super.f is the inherited field, super.f() the base method, when both are called f", SS, "3\n10\n4\n20\n"),
         ("an abstract method of a generic base implemented in terms of the type argument", SINK, "dog\n"),
         ("bare and super calls of methods inherited from a generic base take the base's type arguments", GB, "2\nb\n"),
         ("after destroy a variable is a null reference of its class",
